@@ -829,5 +829,5 @@ func c27Classify(c *kit.Case, in c27Input) {
 func TestVerif_C27(t *testing.T) {
 	s := kit.Begin(t, "C27")
 	defer s.Finish()
-	kit.Run(s, "ordered_map_model", kit.N{Quick: 16000, Thorough: 200000}, c27Gen, c27Check)
+	kit.Run(s, "ordered_map_model", kit.N{Quick: 10000, Thorough: 200000}, c27Gen, c27Check)
 }
